@@ -1,3 +1,4 @@
+@dt.setter
 def spec(self, value):
     StepMixin.dt.fset(self, value)
     if self.__derive_refrac:
